@@ -125,7 +125,7 @@ def main(argv=None):
     from . import variants
     todo = []
     for v in variants.VARIANTS:
-        if args.id and v["id"] != args.id:
+        if args.id and v["id"] != args.id and not (args.id.endswith("*") and v["id"].startswith(args.id[:-1])):
             continue
         for prop in v["props"]:
             if args.prop and prop != args.prop.upper():
